@@ -125,6 +125,7 @@ static void apply_locale(int want) {
     if (want == cur) return;
     if (!setlocale(LC_ALL, want ? "C.UTF-8" : "C") && want) setlocale(LC_ALL, "C");
     cur = want;
+    image_init();   // the locale's tables are new read-only mappings
 }
 static Verdict check_plan_inner(const Plan& p, Stats& st) {
     apply_locale(p.locale);
